@@ -43,6 +43,9 @@ pub struct PeerPolicy {
     pub lose_retx: f64,
     /// after each ACK, with this probability, repeat it this many times (duplicate ACKs)
     pub dup_ack: (f64, u32),
+    /// repeat ACKs only while the peer holds data out of order (what a real receiver does);
+    /// false = also repeat ACKs that report no hole (spurious duplicates)
+    pub dup_only_with_hole: bool,
     /// probability to send, in addition, a stale ACK (an old acknowledgement number)
     pub stale_ack: f64,
     pub window: WindowMode,
@@ -261,7 +264,8 @@ pub async fn tx_scenario(world: Arc<World>, cfg: TxCfg, case_seed: u64) -> TxOut
                 unacked_since_last = 0;
                 old_acks.push(peer.ack_nr());
                 let mut copies = 1;
-                if pol.dup_ack.0 > 0.0 && rng.chance(pol.dup_ack.0) {
+                let has_hole = peer.received.range(peer.contiguous() + 1..).next().is_some();
+                if pol.dup_ack.0 > 0.0 && rng.chance(pol.dup_ack.0) && (has_hole || !pol.dup_only_with_hole) {
                     copies += pol.dup_ack.1;
                 }
                 due.insert((t, order), DueItem::Ack { wnd: cur_wnd, copies });
@@ -416,6 +420,7 @@ pub fn generate(case_seed: u64, focus: TxFocus, max_total: usize) -> TxCfg {
         lose_first: 0.0,
         lose_retx: 0.0,
         dup_ack: (0.0, 0),
+        dup_only_with_hole: rng.chance(0.8),
         stale_ack: 0.0,
         window: WindowMode::Const(big),
         silence: None,
